@@ -83,7 +83,8 @@ def _find_use(stmt: ast.stmt, name: str):
         expr(stmt.value)
     elif isinstance(stmt, ast.Return):
         expr(stmt.value)
-    elif isinstance(stmt, ast.Assign) and all(isinstance(t, ast.Name) for t in stmt.targets):
+    elif isinstance(stmt, ast.Assign) and all(isinstance(t, ast.Name) or (isinstance(t, (ast.Tuple, ast.List)) and all(isinstance(x, ast.Name) for x in t.elts))
+                                               for t in stmt.targets):
         expr(stmt.value)
     elif isinstance(stmt, ast.AnnAssign) and isinstance(stmt.target, ast.Name) and stmt.value is not None:
         expr(stmt.value)
@@ -549,6 +550,12 @@ def expand_assigned_calls(fn: ast.FunctionDef, lookup, rounds: int = 2) -> ast.F
     g0 = copy.deepcopy(fn)
     # calls of such helpers nested in a statement (`return N(a, h1(x), h2(y))`) are first bound to temporaries, left to right
     k = [0]
+    _expand_prebind(g0, fn, lookup, k)
+    ast.fix_missing_locations(g0)
+    return _expand_rounds(g0, fn, lookup, rounds, k)
+
+
+def _expand_prebind(g0, fn, lookup, k):
     for holder in ast.walk(g0):
         for fld in ('body', 'orelse', 'finalbody'):
             blk = getattr(holder, fld, None)
@@ -578,12 +585,26 @@ def expand_assigned_calls(fn: ast.FunctionDef, lookup, rounds: int = 2) -> ast.F
 
                     visit_ListComp = visit_SetComp = visit_DictComp = visit_GeneratorExp = visit_IfExp = visit_BoolOp = visit_Lambda
                 st.value = H().visit(st.value)
+                # `a, b = h(..)`: the result is bound to a temporary first, then unpacked
+                if isinstance(st, ast.Assign) and len(st.targets) == 1 and isinstance(st.targets[0], (ast.Tuple, ast.List)) \
+                        and isinstance(top, ast.Call) and st.value is top and isinstance(top.func, ast.Name) \
+                        and lookup(top.func.id) is not None and lookup(top.func.id) is not fn:
+                    tmp = f'h{k[0]}_'
+                    k[0] += 1
+                    pre.append(ast.copy_location(ast.Assign(targets=[ast.Name(id=tmp, ctx=ast.Store())], value=top), st))
+                    st.value = ast.copy_location(ast.Name(id=tmp, ctx=ast.Load()), top)
                 if pre:
                     blk[j - 1:j - 1] = pre
                     j += len(pre)
-    ast.fix_missing_locations(g0)
+
+
+def _expand_rounds(g0, fn, lookup, rounds, k):
+    import copy
     for _round in range(rounds):
         changed = False
+        if _round:
+            _expand_prebind(g0, fn, lookup, k)                          # bodies written out in the last round bring their own calls
+            ast.fix_missing_locations(g0)
         for holder in ast.walk(g0):
             for fld in ('body', 'orelse', 'finalbody'):
                 blk = getattr(holder, fld, None)
@@ -1228,11 +1249,18 @@ def inline_simple_generators(tree: ast.Module) -> int:
     `iter(f, None)` is the stream of `f()` up to the first None.  -> number of rewrites"""
     import copy
     count = 0
+    # a private module-level generator referenced once in the whole module is the local generator of the function that uses it
+    lifted = [n for n in getattr(tree, 'body', []) if isinstance(n, ast.FunctionDef) and n.name.startswith('_') and not n.name.startswith('__')
+              and sum(1 for x in ast.walk(tree) if isinstance(x, ast.Name) and x.id == n.name) == 1
+              and not any(isinstance(x, ast.Constant) and x.value == n.name for x in ast.walk(tree))]
     for fn in [x for x in ast.walk(tree) if isinstance(x, (ast.FunctionDef, ast.AsyncFunctionDef))]:
-        for g in [n for n in fn.body if isinstance(n, ast.FunctionDef)]:
-            if g.args.args or g.args.vararg or g.args.kwarg or g.args.kwonlyargs or g.decorator_list:
+        for g in [n for n in fn.body if isinstance(n, ast.FunctionDef)] + [n for n in lifted if n is not fn and not any(n is y for y in ast.walk(fn))]:
+            if g.args.vararg or g.args.kwarg or g.args.kwonlyargs or g.args.defaults or g.args.posonlyargs or g.decorator_list:
                 continue
+            gparams = [a.arg for a in g.args.args]
             inner_defs = {id(n) for h in ast.walk(g) if isinstance(h, (ast.FunctionDef, ast.Lambda)) and h is not g for n in ast.walk(h)}
+            if gparams and (inner_defs or any(isinstance(n, ast.Name) and n.id in gparams and isinstance(n.ctx, (ast.Store, ast.Del)) for n in ast.walk(g))):
+                continue
             ys = [n for n in ast.walk(g) if isinstance(n, (ast.Yield, ast.YieldFrom)) and id(n) not in inner_defs]
             ystmts = [st for st in ast.walk(g) if isinstance(st, ast.Expr) and id(st) not in inner_defs
                       and (isinstance(st.value, ast.Yield) and st.value.value is not None or isinstance(st.value, ast.YieldFrom))]
@@ -1242,10 +1270,26 @@ def inline_simple_generators(tree: ast.Module) -> int:
                 continue
             refs = [n for n in ast.walk(fn) if isinstance(n, ast.Name) and n.id == g.name]
             uses = [n for n in ast.walk(fn) if isinstance(n, ast.For) and isinstance(n.iter, ast.Call) and isinstance(n.iter.func, ast.Name)
-                    and n.iter.func.id == g.name and not n.iter.args and not n.iter.keywords and not n.orelse]
+                    and n.iter.func.id == g.name and len(n.iter.args) == len(gparams) and not n.iter.keywords and not n.orelse]
             if len(refs) != 1 or len(uses) != 1 or any(u is x for u in uses for x in ast.walk(g)):
                 continue
             use = uses[0]
+            # parameters: read-only in the generator, and the arguments are names / attribute chains / constants that denote the same
+            # value whenever they are evaluated (nothing in the enclosing function rebinds the names or stores into the attributes)
+            gsub = {}
+            if gparams:
+                def steady(e):
+                    if isinstance(e, ast.Constant):
+                        return True
+                    if isinstance(e, ast.Name):
+                        return len(_stores(fn, e.id)) == 0 or (len(_stores(fn, e.id)) == 1 and e.id not in {a.arg for a in fn.args.args})
+                    if isinstance(e, ast.Attribute):
+                        return steady(e.value) and not any(isinstance(n, ast.Attribute) and n.attr == e.attr and isinstance(n.ctx, (ast.Store, ast.Del))
+                                                           for n in ast.walk(fn))
+                    return False
+                if not all(steady(a) for a in use.iter.args):
+                    continue
+                gsub = dict(zip(gparams, use.iter.args))
 
             # the consumer's body may not break / continue the consuming loop itself
             def escapes(stmts):
@@ -1269,6 +1313,8 @@ def inline_simple_generators(tree: ast.Module) -> int:
 
             class R(ast.NodeTransformer):
                 def visit_Name(self, n):
+                    if n.id in gsub and isinstance(n.ctx, ast.Load):
+                        return ast.copy_location(copy.deepcopy(gsub[n.id]), n)
                     if n.id in ren:
                         n.id = ren[n.id]
                     return n
@@ -1307,6 +1353,9 @@ def inline_simple_generators(tree: ast.Module) -> int:
                     break
             if done:
                 fn.body = [x for x in fn.body if x is not g]
+                if any(g is x for x in lifted):
+                    tree.body = [x for x in tree.body if x is not g]
+                    lifted = [x for x in lifted if x is not g]
                 count += 1
     for node in ast.walk(tree):
         for fld in ('body', 'orelse', 'finalbody'):
@@ -1425,3 +1474,1067 @@ def extend_by_generator_to_appends(tree: ast.Module) -> int:
                     i += len(new) - 1
                     count += 1
     return count
+
+
+# ----------------------------------------------------------------------------------------------------------------------------
+# `partial(_g, a, b)` of a private module-level `def _g(p, q, rest..)` used at that one place  ->  the closure
+# `def _g(rest..): <body with p, q read from the enclosing function>` defined just before, and a reference to it
+
+def unpartial_private_helpers(tree: ast.Module) -> int:
+    """A private module-level function whose only use is as the first argument of ONE `functools.partial(..)` call inside a
+    function F is F's closure over the partially applied arguments: the definition is moved into F directly before the statement
+    that builds the partial, with the leading parameters dropped - a plain-name argument is read under its own name, any other
+    argument is bound to a local first (it is evaluated once, where `partial(..)` evaluated it) - and the `partial(..)` call is
+    replaced by the function's name.  Keyword arguments of partial, rebinding of the dropped parameters inside the helper, and
+    recursion are left alone.  -> number of helpers moved"""
+    import copy
+    count = 0
+    for _round in range(20):
+        funcs = {n.name: n for n in tree.body if isinstance(n, ast.FunctionDef)}
+        moved = False
+        for gname, g in funcs.items():
+            if not gname.startswith('_') or gname.startswith('__') or g.decorator_list or g.args.vararg or g.args.kwarg \
+                    or g.args.kwonlyargs or g.args.defaults or g.args.posonlyargs:
+                continue
+            if any(isinstance(n, (ast.Yield, ast.YieldFrom, ast.Global, ast.Nonlocal)) for n in ast.walk(g)) \
+                    or any(isinstance(n, ast.Name) and n.id == gname for n in ast.walk(g)):
+                continue
+            refs = [n for n in ast.walk(tree) if isinstance(n, ast.Name) and n.id == gname]
+            sites = [c for c in ast.walk(tree) if isinstance(c, ast.Call) and isinstance(c.func, (ast.Name, ast.Attribute))
+                     and (c.func.id if isinstance(c.func, ast.Name) else c.func.attr) == 'partial' and c.args and c.args[0] in refs]
+            if len(refs) != 1 or len(sites) != 1 or sites[0].keywords or any(isinstance(a, ast.Starred) for a in sites[0].args):
+                continue
+            site = sites[0]
+            k = len(site.args) - 1
+            params = [a.arg for a in g.args.args]
+            if k < 1 or k > len(params):
+                continue
+            in_g = {id(n) for n in ast.walk(g)}
+            owners = [f for f in ast.walk(tree) if isinstance(f, ast.FunctionDef) and id(f) not in in_g and any(site is n for n in ast.walk(f))]
+            owners = [f for f in owners if not any(f2 is not f and any(f2 is n for n in ast.walk(f)) for f2 in owners)]
+            if len(owners) != 1:
+                continue
+            f = owners[0]
+            # the statement of F's body (any block) that contains the partial
+            holder = None
+            for h in ast.walk(f):
+                for fld in ('body', 'orelse', 'finalbody'):
+                    blk = getattr(h, fld, None)
+                    if isinstance(blk, list) and blk and isinstance(blk[0], ast.stmt):
+                        for i, st in enumerate(blk):
+                            if not isinstance(st, (ast.FunctionDef, ast.ClassDef)) and any(site is n for n in _own_walk(st)):
+                                holder = (blk, i)
+            if holder is None:
+                continue
+            stored_g = {n.id for n in ast.walk(g) if isinstance(n, ast.Name) and isinstance(n.ctx, (ast.Store, ast.Del))}
+            if stored_g & set(params[:k]):
+                continue
+            f_names = {n.id for n in ast.walk(f) if isinstance(n, ast.Name)} | {a.arg for a in f.args.args}
+            binds, ren = [], {}
+            ok = True
+            for p_, a_ in zip(params[:k], site.args[1:]):
+                if isinstance(a_, ast.Name):
+                    if a_.id != p_ and (a_.id in params or a_.id in stored_g):
+                        ok = False
+                    ren[p_] = a_.id
+                else:
+                    fresh = f'{p_}__{gname.strip("_")}'
+                    if fresh in f_names:
+                        ok = False
+                    binds.append(ast.Assign(targets=[ast.Name(id=fresh, ctx=ast.Store())], value=a_))
+                    ren[p_] = fresh
+            if not ok:
+                continue
+            g2 = copy.deepcopy(g)
+            for n in ast.walk(g2):
+                if isinstance(n, ast.Name) and n.id in ren:
+                    n.id = ren[n.id]
+            g2.args.args = g2.args.args[k:]
+            blk, i = holder
+            for b in binds:
+                ast.copy_location(b, blk[i])
+            ast.copy_location(g2, blk[i])
+            # replace the partial(..) call by the name
+            class R(ast.NodeTransformer):
+                def visit_Call(self, n):
+                    if n is site:
+                        return ast.copy_location(ast.Name(id=gname, ctx=ast.Load()), n)
+                    return self.generic_visit(n)
+            blk[i] = R().visit(blk[i])
+            blk[i:i] = binds + [g2]
+            for x in binds + [g2]:
+                ast.fix_missing_locations(x)
+            tree.body.remove(g)
+            count += 1
+            moved = True
+            break
+        if not moved:
+            break
+    return count
+
+
+def _own_walk(node):
+    stack = [node]
+    while stack:
+        n = stack.pop()
+        yield n
+        for c in ast.iter_child_nodes(n):
+            if not isinstance(c, (ast.FunctionDef, ast.AsyncFunctionDef, ast.ClassDef)):
+                stack.append(c)
+
+
+# ----------------------------------------------------------------------------------------------------------------------------
+# a local helper object with one-line methods is its fields: `o = K(a)` .. `o.m(x)`  ->  `o__f = a` .. <body of m on o__f, x>
+
+def dissolve_local_objects(tree: ast.Module) -> int:
+    """`o = K(args)` in a function F, where K is a plain module-level class whose `__init__` only binds fields
+    (`self.f = <expression over its parameters>`) and whose other methods are one-liners (`return E` / one call statement), and
+    where F uses `o` only as `o.m(..)` / `o.f` (it is never passed on, returned or rebound), is the group of locals `o__f`: the
+    constructor call becomes their bindings and each method call its body on those locals.  Rules that follow a list and an
+    offset then see them whether or not the project wraps them in a small class.  -> number of objects dissolved"""
+    import copy
+    count = 0
+    classes = {c.name: c for c in tree.body if isinstance(c, ast.ClassDef) and not c.decorator_list and not c.bases}
+    if not classes:
+        return 0
+    shapes = {}
+    for name, c in classes.items():
+        meths = {m.name: m for m in c.body if isinstance(m, ast.FunctionDef)}
+        init = meths.get('__init__')
+        if init is None or init.args.vararg or init.args.kwarg or any(isinstance(x, (ast.ClassDef,)) for x in c.body):
+            continue
+        ibody = [st for st in init.body if not (isinstance(st, ast.Expr) and isinstance(st.value, ast.Constant))]
+        fields = {}
+        ok = True
+        for st in ibody:
+            t = st.targets[0] if isinstance(st, ast.Assign) and len(st.targets) == 1 else (st.target if isinstance(st, ast.AnnAssign) else None)
+            if not (isinstance(t, ast.Attribute) and isinstance(t.value, ast.Name) and t.value.id == init.args.args[0].arg and st.value is not None):
+                ok = False
+                break
+            if any(isinstance(n, ast.Name) and n.id == init.args.args[0].arg for n in ast.walk(st.value)):
+                ok = False
+                break
+            fields[t.attr] = st.value
+        one = {}
+        for mname, m in meths.items():
+            if mname == '__init__':
+                continue
+            b = [st for st in m.body if not (isinstance(st, ast.Expr) and isinstance(st.value, ast.Constant))]
+            if m.decorator_list or m.args.vararg or m.args.kwarg or m.args.defaults or len(b) != 1 \
+                    or not (isinstance(b[0], ast.Return) and b[0].value is not None or isinstance(b[0], ast.Expr)):
+                ok = False
+                break
+            one[mname] = m
+        if ok and fields:
+            shapes[name] = (init, fields, one)
+    if not shapes:
+        return 0
+    for fn in [x for x in ast.walk(tree) if isinstance(x, ast.FunctionDef)]:
+        for st in list(fn.body):
+            t = st.targets[0] if isinstance(st, ast.Assign) and len(st.targets) == 1 else (st.target if isinstance(st, ast.AnnAssign) else None)
+            v = getattr(st, 'value', None)
+            if not (isinstance(t, ast.Name) and isinstance(v, ast.Call) and isinstance(v.func, ast.Name) and v.func.id in shapes):
+                continue
+            o = t.id
+            init, fields, one = shapes[v.func.id]
+            iparams = [a.arg for a in init.args.args[1:] + init.args.kwonlyargs]
+            if any(isinstance(a, ast.Starred) for a in v.args) or any(k.arg is None for k in v.keywords):
+                continue
+            bound = dict(zip(iparams, v.args))
+            bound.update({k.arg: k.value for k in v.keywords})
+            defaults = dict(zip([a.arg for a in init.args.args[1:]][-len(init.args.defaults):], init.args.defaults)) if init.args.defaults else {}
+            for p_ in iparams:
+                if p_ not in bound and p_ in defaults:
+                    bound[p_] = defaults[p_]
+            if set(bound) != set(iparams):
+                continue
+            # every use of o: o.m(..) with a one-liner m, or o.f with a field f; one binding only
+            uses = [n for n in ast.walk(fn) if isinstance(n, ast.Name) and n.id == o and n is not t]
+            if any(isinstance(n.ctx, (ast.Store, ast.Del)) for n in uses):
+                continue
+            parents = {id(ch): p_ for p_ in ast.walk(fn) for ch in ast.iter_child_nodes(p_)}
+            okuse = True
+            for n in uses:
+                par = parents.get(id(n))
+                if not (isinstance(par, ast.Attribute) and par.value is n and (par.attr in fields or par.attr in one)):
+                    okuse = False
+                    break
+                if par.attr in one:
+                    gp = parents.get(id(par))
+                    m = one[par.attr]
+                    if not (isinstance(gp, ast.Call) and gp.func is par and not gp.keywords and len(gp.args) == len(m.args.args) - 1
+                            and not any(isinstance(a, ast.Starred) for a in gp.args)):
+                        okuse = False
+                        break
+            if not okuse or not uses:
+                continue
+            loc = {f: f'{o}__{f.strip("_")}' for f in fields}
+
+            def field_expr(e, selfname, table):
+                class S(ast.NodeTransformer):
+                    def visit_Attribute(self, n):
+                        self.generic_visit(n)
+                        if isinstance(n.value, ast.Name) and n.value.id == selfname and n.attr in loc:
+                            return ast.copy_location(ast.Name(id=loc[n.attr], ctx=n.ctx), n)
+                        return n
+
+                    def visit_Name(self, n):
+                        if n.id in table and isinstance(n.ctx, ast.Load):
+                            return ast.copy_location(copy.deepcopy(table[n.id]), n)
+                        return n
+                return S().visit(copy.deepcopy(e))
+
+            class U(ast.NodeTransformer):
+                def visit_Call(self, n):
+                    self.generic_visit(n)
+                    if isinstance(n.func, ast.Attribute) and isinstance(n.func.value, ast.Name) and n.func.value.id == o and n.func.attr in one:
+                        m = one[n.func.attr]
+                        b = [x for x in m.body if not (isinstance(x, ast.Expr) and isinstance(x.value, ast.Constant))][0]
+                        table = dict(zip([a.arg for a in m.args.args[1:]], n.args))
+                        return ast.copy_location(field_expr(b.value, m.args.args[0].arg, table), n)
+                    return n
+
+                def visit_Attribute(self, n):
+                    self.generic_visit(n)
+                    if isinstance(n.value, ast.Name) and n.value.id == o and n.attr in loc:
+                        return ast.copy_location(ast.Name(id=loc[n.attr], ctx=n.ctx), n)
+                    return n
+            new_binds = [ast.copy_location(ast.Assign(targets=[ast.Name(id=loc[f], ctx=ast.Store())],
+                                                      value=field_expr(e, init.args.args[0].arg, bound)), st) for f, e in fields.items()]
+            k = fn.body.index(st)
+            rest = [U().visit(x) for x in fn.body[k + 1:]]
+            fn.body[k:] = new_binds + rest
+            ast.fix_missing_locations(fn)
+            count += 1
+    return count
+
+
+# ----------------------------------------------------------------------------------------------------------------------
+# function-level forms used by rules that read ONE function closely (c16 reads exec_proof through them): a dispatch through a
+# local constant table, the unpacking of a display, block-local constants, loops over a constant range, a dict filled store by
+# store.  Each is an equivalence under the stated side conditions and is skipped when they are not met.
+
+def _stores(fn, name):
+    return [n for n in ast.walk(fn) if isinstance(n, ast.Name) and n.id == name and isinstance(n.ctx, (ast.Store, ast.Del))]
+
+
+def _stable(fn, e, params=None) -> bool:
+    """`e` denotes the same value wherever it is evaluated in fn: a constant, a name bound at most once (a parameter or a single
+    binding), an attribute chain of such a name that is the target of no store in fn, or a tuple of these"""
+    if isinstance(e, ast.Constant):
+        return True
+    if isinstance(e, ast.Tuple):
+        return all(_stable(fn, x) for x in e.elts)
+    if isinstance(e, ast.Name):
+        return len(_stores(fn, e.id)) <= (0 if e.id in {a.arg for a in fn.args.args + fn.args.kwonlyargs} else 1)
+    if isinstance(e, ast.Attribute):
+        if any(isinstance(n, ast.Attribute) and isinstance(n.ctx, (ast.Store, ast.Del)) and n.attr == e.attr for n in ast.walk(fn)):
+            return False
+        return _stable(fn, e.value)
+    return False
+
+
+def specialise_table_dispatch(fn: ast.FunctionDef, module: ast.Module | None = None) -> int:
+    """`T = {k1: v1, .., kn: vn}` - a local display with distinct constant keys and stable values, bound once and used only as
+    `X in T` and `T[X]` - and `if X in T: BODY [else: REST]` become `if X == k1: BODY[T[X] := v1] elif X == k2: .. [else: REST]`.
+    With `module`, a table bound once at module level (keys: constants or enum members written `E.member`; values: constants or
+    tuples of constants; never stored into, no method called on it, not rebound or shadowed in fn) is read the same way."""
+    import copy
+    n = 0
+
+    def key_ok(k):
+        return isinstance(k, ast.Constant) or (isinstance(k, ast.Attribute) and isinstance(k.value, ast.Name))
+
+    def const_val(x):
+        return isinstance(x, ast.Constant) or (isinstance(x, ast.Tuple) and all(const_val(y) for y in x.elts))
+    tables = []
+    for st in list(fn.body):
+        tables.append((st, True))
+    if module is not None:
+        for st in module.body:
+            tables.append((st, False))
+    for st, local in tables:
+        t = st.targets[0] if isinstance(st, ast.Assign) and len(st.targets) == 1 else (st.target if isinstance(st, ast.AnnAssign) else None)
+        v = getattr(st, 'value', None)
+        if not (isinstance(t, ast.Name) and isinstance(v, ast.Dict) and v.keys and all(k is not None and key_ok(k) for k in v.keys)):
+            continue
+        T = t.id
+        if len({ast.unparse(k) for k in v.keys}) != len(v.keys):
+            continue
+        if local:
+            if not all(isinstance(k, ast.Constant) for k in v.keys) or len(_stores(fn, T)) != 1 or not all(_stable(fn, x) for x in v.values):
+                continue
+        else:
+            if _stores(fn, T) or T in {a.arg for a in fn.args.args + fn.args.kwonlyargs} or not all(const_val(x) for x in v.values):
+                continue
+            if sum(1 for x in ast.walk(module) if isinstance(x, ast.Name) and x.id == T and isinstance(x.ctx, (ast.Store, ast.Del))) != 1:
+                continue
+            mparents = {c: p_ for p_ in ast.walk(module) for c in ast.iter_child_nodes(p_)}
+            if any(isinstance(x, ast.Name) and x.id == T and isinstance(x.ctx, ast.Load) and (
+                    (isinstance(mparents.get(x), ast.Subscript) and not isinstance(mparents[x].ctx, ast.Load))
+                    or (isinstance(mparents.get(x), ast.Attribute) and mparents[x].attr not in ('get', 'keys', 'values', 'items'))
+                    or (isinstance(mparents.get(x), ast.Call) and mparents[x].func is not x)
+                    or isinstance(mparents.get(x), (ast.Starred, ast.keyword, ast.Return, ast.Assign, ast.AnnAssign))) for x in ast.walk(module)):
+                continue                                               # stored into, passed on or aliased somewhere in the module
+            if any(isinstance(x, ast.Global) and T in x.names for x in ast.walk(module)):
+                continue
+        parents = {c: p for p in ast.walk(fn) for c in ast.iter_child_nodes(p)}
+        uses = [x for x in ast.walk(fn) if isinstance(x, ast.Name) and x.id == T and isinstance(x.ctx, ast.Load)]
+
+        def use_ok(u):
+            p = parents.get(u)
+            if isinstance(p, ast.Subscript) and p.value is u and isinstance(p.ctx, ast.Load) and isinstance(p.slice, ast.Name):
+                return True
+            return isinstance(p, ast.Compare) and len(p.ops) == 1 and isinstance(p.ops[0], ast.In) and p.comparators[0] is u \
+                and isinstance(p.left, ast.Name) and isinstance(parents.get(p), ast.If) and parents[p].test is p
+        if not uses or not all(use_ok(u) for u in uses):
+            continue
+        ifs = [parents[parents[u]] for u in uses if isinstance(parents.get(u), ast.Compare)]
+        subs = [parents[u] for u in uses if isinstance(parents.get(u), ast.Subscript)]
+        # every T[X] sits in the body of an `if X in T` on the same X, and X is not rebound there
+        def covered(s):
+            return any(any(s is y for y in ast.walk(ast.Module(body=i.body, type_ignores=[]))) and i.test.left.id == s.slice.id
+                       and not any(_stores(b, s.slice.id) for b in i.body) for i in ifs)
+        if not ifs or not all(covered(s) for s in subs):
+            continue
+        for i in ifs:
+            X = i.test.left.id
+            arms = []
+            for k, val in zip(v.keys, v.values):
+                body = copy.deepcopy(i.body)
+
+                class R(ast.NodeTransformer):
+                    def visit_Subscript(self, s):
+                        self.generic_visit(s)
+                        if isinstance(s.value, ast.Name) and s.value.id == T and isinstance(s.slice, ast.Name) and s.slice.id == X:
+                            return ast.copy_location(copy.deepcopy(val), s)
+                        return s
+                body = [R().visit(b) for b in body]
+                test = ast.copy_location(ast.Compare(left=ast.Name(id=X, ctx=ast.Load()), ops=[ast.Eq()], comparators=[copy.deepcopy(k)]), i.test)
+                arms.append((test, body))
+            tail = i.orelse
+            for test, body in reversed(arms[1:]):
+                tail = [ast.copy_location(ast.If(test=test, body=body, orelse=tail), i)]
+            i.test, i.body, i.orelse = arms[0][0], arms[0][1], tail
+            n += 1
+        if local:
+            fn.body.remove(st)
+    if n:
+        ast.fix_missing_locations(fn)
+    return n
+
+
+def _blocks(fn):
+    for holder in ast.walk(fn):
+        for fld in ('body', 'orelse', 'finalbody'):
+            blk = getattr(holder, fld, None)
+            if isinstance(blk, list) and blk and isinstance(blk[0], ast.stmt):
+                yield blk
+
+
+def unpack_display_assign(fn: ast.FunctionDef) -> int:
+    """`a, b = (e1, e2)` -> `a = e1; b = e2` when no target is read by an element"""
+    n = 0
+    for blk in _blocks(fn):
+        i = 0
+        while i < len(blk):
+            st = blk[i]
+            i += 1
+            if not (isinstance(st, ast.Assign) and len(st.targets) == 1 and isinstance(st.targets[0], (ast.Tuple, ast.List))
+                    and isinstance(st.value, (ast.Tuple, ast.List)) and len(st.targets[0].elts) == len(st.value.elts)
+                    and all(isinstance(t, ast.Name) for t in st.targets[0].elts)
+                    and not any(isinstance(x, ast.Starred) for x in st.value.elts)):
+                continue
+            names = {t.id for t in st.targets[0].elts}
+            if len(names) != len(st.targets[0].elts) or any(isinstance(x, ast.Name) and x.id in names for e in st.value.elts for x in ast.walk(e)):
+                continue
+            new = [ast.copy_location(ast.Assign(targets=[ast.Name(id=t.id, ctx=ast.Store())], value=e), st) for t, e in zip(st.targets[0].elts, st.value.elts)]
+            blk[i - 1:i] = new
+            i += len(new) - 1
+            n += 1
+    if n:
+        ast.fix_missing_locations(fn)
+    return n
+
+
+def _fold_ints(e):
+    """integer arithmetic on constants folded (`0 - 2 - 1` -> `-3`)"""
+    class F(ast.NodeTransformer):
+        def visit_BinOp(self, b):
+            self.generic_visit(b)
+            l, r = b.left, b.right
+
+            def iv(x):
+                if isinstance(x, ast.Constant) and type(x.value) is int:
+                    return x.value
+                if isinstance(x, ast.UnaryOp) and isinstance(x.op, ast.USub) and isinstance(x.operand, ast.Constant) and type(x.operand.value) is int:
+                    return -x.operand.value
+                return None
+            a, c = iv(l), iv(r)
+            if a is not None and c is not None and isinstance(b.op, (ast.Add, ast.Sub, ast.Mult)):
+                val = a + c if isinstance(b.op, ast.Add) else a - c if isinstance(b.op, ast.Sub) else a * c
+                out = ast.Constant(value=val) if val >= 0 else ast.UnaryOp(op=ast.USub(), operand=ast.Constant(value=-val))
+                return ast.copy_location(out, b)
+            return b
+
+        def visit_UnaryOp(self, u):
+            self.generic_visit(u)
+            if isinstance(u.op, ast.USub) and isinstance(u.operand, ast.UnaryOp) and isinstance(u.operand.op, ast.USub):
+                return u.operand.operand
+            return u
+    return F().visit(e)
+
+
+def propagate_block_constants(fn: ast.FunctionDef) -> int:
+    """within one block, `n = E` with E stable (see _stable; n itself bound only by plain assignments) is substituted into the
+    following statements of the block up to the next binding of n; the binding is dropped when nothing reads n any more.  Nested
+    lambdas / defs that read n block the substitution (they may run later)."""
+    import copy
+    total = 0
+    for blk in list(_blocks(fn)):
+        i = 0
+        while i < len(blk):
+            st = blk[i]
+            i += 1
+            if not (isinstance(st, ast.Assign) and len(st.targets) == 1 and isinstance(st.targets[0], ast.Name)):
+                continue
+            nm, val = st.targets[0].id, st.value
+            ok_val = isinstance(val, ast.Constant) or (isinstance(val, (ast.Name, ast.Attribute)) and _stable(fn, val)) \
+                or (isinstance(val, ast.UnaryOp) and isinstance(val.operand, ast.Constant))
+            if not ok_val or nm in {a.arg for a in fn.args.args}:
+                continue
+            rest = []
+            for s in blk[i:]:
+                if any(isinstance(x, ast.Name) and x.id == nm and isinstance(x.ctx, (ast.Store, ast.Del)) for x in ast.walk(s)):
+                    break
+                rest.append(s)
+            if any(isinstance(d, (ast.Lambda, ast.FunctionDef)) and any(isinstance(x, ast.Name) and x.id == nm for x in ast.walk(d))
+                   for d in ast.walk(fn) if d is not fn):
+                continue
+
+            class S(ast.NodeTransformer):
+                hits = 0
+
+                def visit_Name(self, x):
+                    if x.id == nm and isinstance(x.ctx, ast.Load):
+                        S.hits += 1
+                        return ast.copy_location(copy.deepcopy(val), x)
+                    return x
+            S.hits = 0
+            for k, s in enumerate(rest):
+                blk[i + k] = _fold_ints(S().visit(s))
+            # still read somewhere (after the block, on another path)?  then the binding stays
+            still = [x for x in ast.walk(fn) if isinstance(x, ast.Name) and x.id == nm and isinstance(x.ctx, ast.Load)]
+            if S.hits and not still:
+                blk.pop(i - 1)
+                i -= 1
+            total += S.hits
+    if total:
+        ast.fix_missing_locations(fn)
+    return total
+
+
+def unroll_constant_ranges(fn: ast.FunctionDef, limit: int = 4) -> int:
+    """`for i in range(C)` (C a literal, at most `limit`; no break / continue / else; i not rebound) -> the body C times with i
+    replaced by 0 .. C-1; locals bound in the body and read nowhere outside the loop are renamed apart per copy."""
+    import copy
+    n = 0
+    for blk in list(_blocks(fn)):
+        i = 0
+        while i < len(blk):
+            st = blk[i]
+            i += 1
+            if not (isinstance(st, ast.For) and isinstance(st.target, ast.Name) and not st.orelse and isinstance(st.iter, ast.Call)
+                    and isinstance(st.iter.func, ast.Name) and st.iter.func.id == 'range' and len(st.iter.args) == 1 and not st.iter.keywords
+                    and isinstance(st.iter.args[0], ast.Constant) and type(st.iter.args[0].value) is int and 0 <= st.iter.args[0].value <= limit):
+                continue
+            if any(isinstance(x, (ast.Break, ast.Continue, ast.Return, ast.Lambda, ast.FunctionDef)) for b in st.body for x in ast.walk(b)):
+                continue
+            iv = st.target.id
+            if any(_stores(b, iv) for b in st.body):
+                continue
+            inside = {id(x) for b in st.body for x in ast.walk(b)}
+            # occurrences in another loop that binds the name itself before reading it (its own target, or a plain assignment that
+            # comes first in its body) cannot see this loop's binding
+            elsewhere = set()
+            for other in ast.walk(fn):
+                if isinstance(other, ast.For) and other is not st and id(other) not in inside:
+                    for nm_ in {x.id for x in ast.walk(other) if isinstance(x, ast.Name)}:
+                        own = isinstance(other.target, ast.Name) and other.target.id == nm_
+                        if not own:
+                            first = next((b for b in other.body if any(isinstance(x, ast.Name) and x.id == nm_ for x in ast.walk(b))), None)
+                            own = isinstance(first, (ast.Assign, ast.AnnAssign)) and first.value is not None \
+                                and isinstance(first.targets[0] if isinstance(first, ast.Assign) else first.target, ast.Name) \
+                                and (first.targets[0] if isinstance(first, ast.Assign) else first.target).id == nm_ \
+                                and not any(isinstance(x, ast.Name) and x.id == nm_ for x in ast.walk(first.value)) \
+                                and not any(isinstance(x, ast.Name) and x.id == nm_ for x in ast.walk(other.iter))
+                        if own and not any(isinstance(x, ast.Name) and x.id == nm_ and id(x) not in {id(y) for y in ast.walk(other)}
+                                           and id(x) not in inside and x is not st.target for x in ast.walk(fn)):
+                            elsewhere |= {id(x) for x in ast.walk(other) if isinstance(x, ast.Name) and x.id == nm_}
+            if any(isinstance(x, ast.Name) and x.id == iv and id(x) not in inside and id(x) not in elsewhere and x is not st.target
+                   for x in ast.walk(fn)):
+                continue                                                # the loop variable is read after the loop
+            locs = {x.id for b in st.body for x in ast.walk(b) if isinstance(x, ast.Name) and isinstance(x.ctx, ast.Store)}
+            private = {l for l in locs if not any(isinstance(x, ast.Name) and x.id == l and id(x) not in inside and id(x) not in elsewhere
+                                                  for x in ast.walk(fn))}
+            out = []
+            for k in range(st.iter.args[0].value):
+                class U(ast.NodeTransformer):
+                    def visit_Name(self, x):
+                        if x.id == iv and isinstance(x.ctx, ast.Load):
+                            return ast.copy_location(ast.Constant(value=k), x)
+                        if x.id in private:
+                            return ast.copy_location(ast.Name(id=f'{x.id}_{k}', ctx=x.ctx), x)
+                        return x
+                out += [_fold_ints(U().visit(copy.deepcopy(b))) for b in st.body]
+            blk[i - 1:i] = out or [ast.copy_location(ast.Pass(), st)]
+            i += len(out) - 1 if out else 0
+            n += 1
+    if n:
+        ast.fix_missing_locations(fn)
+    return n
+
+
+def dict_stores_to_display(fn: ast.FunctionDef) -> int:
+    """`D = {}` followed in the same block by `D[c1] = n1 .. D[ck] = nk` (constant keys, distinct; values names or constants that
+    are not rebound in between; D not mentioned otherwise up to the last store) -> `D = {c1: n1, .., ck: nk}` at the last store."""
+    n = 0
+    for blk in list(_blocks(fn)):
+        i = 0
+        while i < len(blk):
+            st = blk[i]
+            i += 1
+            t = st.targets[0] if isinstance(st, ast.Assign) and len(st.targets) == 1 else (st.target if isinstance(st, ast.AnnAssign) else None)
+            v = getattr(st, 'value', None)
+            if not (isinstance(t, ast.Name) and isinstance(v, ast.Dict) and not v.keys):
+                continue
+            D = t.id
+            stores, j = [], i
+            while j < len(blk):
+                s = blk[j]
+                mentions = any(isinstance(x, ast.Name) and x.id == D for x in ast.walk(s))
+                if isinstance(s, ast.Assign) and len(s.targets) == 1 and isinstance(s.targets[0], ast.Subscript) \
+                        and isinstance(s.targets[0].value, ast.Name) and s.targets[0].value.id == D \
+                        and isinstance(s.targets[0].slice, ast.Constant) and isinstance(s.value, (ast.Name, ast.Constant)) \
+                        and not (isinstance(s.value, ast.Name) and s.value.id == D):
+                    stores.append(j)
+                elif mentions:
+                    break
+                j += 1
+            if not stores:
+                continue
+            last = stores[-1]
+            keys = [blk[k].targets[0].slice for k in stores]
+            vals = [blk[k].value for k in stores]
+            if len({repr(k.value) for k in keys}) != len(keys):
+                continue
+            rebound = False
+            for k, val in zip(stores, vals):
+                if isinstance(val, ast.Name) and any(_stores(s, val.id) for s in blk[k + 1:last + 1]):
+                    rebound = True
+            if rebound:
+                continue
+            disp = ast.copy_location(ast.Assign(targets=[ast.Name(id=D, ctx=ast.Store())], value=ast.Dict(keys=keys, values=vals)), blk[last])
+            blk[last] = disp
+            for k in reversed(stores[:-1]):
+                blk.pop(k)
+            blk.pop(i - 1)
+            i -= 1
+            n += 1
+    if n:
+        ast.fix_missing_locations(fn)
+    return n
+
+
+def sum_generator_to_loop(fn: ast.FunctionDef) -> int:
+    """`X = sum(E for v in IT [if C])` -> `X = 0; for v in IT: [if C:] X += E`; a sum inside an arithmetic expression whose other
+    leaves are names, constants and subscripts (nothing that could observe the order of evaluation) is bound to a temporary the
+    same way first.  Only at statement level (Assign / AnnAssign / Return), one generator, names of the generator not used after."""
+    n = 0
+    k = [0]
+    for blk in list(_blocks(fn)):
+        i = 0
+        while i < len(blk):
+            st = blk[i]
+            i += 1
+            if not isinstance(st, (ast.Assign, ast.AnnAssign, ast.Return)) or st.value is None:
+                continue
+            sums = [c for c in ast.walk(st.value) if isinstance(c, ast.Call) and isinstance(c.func, ast.Name) and c.func.id == 'sum'
+                    and len(c.args) == 1 and not c.keywords and isinstance(c.args[0], (ast.GeneratorExp, ast.ListComp))
+                    and len(c.args[0].generators) == 1 and not c.args[0].generators[0].is_async]
+            if len(sums) != 1:
+                continue
+            call = sums[0]
+            # the rest of the value: arithmetic over names / constants / subscripts only
+            def quiet(e):
+                if e is call:
+                    return True
+                if isinstance(e, (ast.Name, ast.Constant)):
+                    return True
+                if isinstance(e, ast.BinOp):
+                    return quiet(e.left) and quiet(e.right)
+                if isinstance(e, ast.UnaryOp):
+                    return quiet(e.operand)
+                if isinstance(e, ast.Subscript):
+                    return quiet(e.value) and quiet(e.slice)
+                return False
+            if not quiet(st.value):
+                continue
+            gen = call.args[0].generators[0]
+            direct = st.value is call and isinstance(st, (ast.Assign, ast.AnnAssign)) and \
+                isinstance(st.targets[0] if isinstance(st, ast.Assign) else st.target, ast.Name) and (not isinstance(st, ast.Assign) or len(st.targets) == 1)
+            if direct:
+                acc = (st.targets[0] if isinstance(st, ast.Assign) else st.target).id
+                if any(isinstance(x, ast.Name) and x.id == acc for x in ast.walk(call)):
+                    continue
+            else:
+                acc = f's{k[0]}_'
+                k[0] += 1
+            add = ast.AugAssign(target=ast.Name(id=acc, ctx=ast.Store()), op=ast.Add(), value=call.args[0].elt)
+            body = [add]
+            for c in reversed(gen.ifs):
+                body = [ast.If(test=c, body=body, orelse=[])]
+            loop = ast.For(target=gen.target, iter=gen.iter, body=body, orelse=[])
+            init = ast.Assign(targets=[ast.Name(id=acc, ctx=ast.Store())], value=ast.Constant(value=0))
+            new = [ast.copy_location(init, st), ast.copy_location(loop, st)]
+            if direct:
+                blk[i - 1:i] = new
+            else:
+                class R(ast.NodeTransformer):
+                    def visit_Call(self, c):
+                        if c is call:
+                            return ast.copy_location(ast.Name(id=acc, ctx=ast.Load()), c)
+                        return self.generic_visit(c)
+                st.value = R().visit(st.value)
+                blk[i - 1:i - 1] = new
+            for x in new:
+                ast.fix_missing_locations(x)
+            i += len(new) - (1 if direct else 0)
+            n += 1
+    return n
+
+
+def index_scan_to_enumerate(fn: ast.FunctionDef) -> int:
+    """`for p in range(LO, len(S))` (or `range(len(S))`; the bound may be a local bound once to len(S)) whose body reads p and does
+    not bind it -> `for k_p, ch_p in enumerate(S[LO:])` with `S[p]` replaced by `ch_p` and every other read of p - in the body and
+    after the loop - by `LO + k_p`.  Both loops visit the same positions in the same order and leave the same last position; LO is a
+    sum of names and non-negative constants (a negative lower bound would make the slice count from the end)."""
+    import copy
+    n = 0
+
+    def len_of(e):
+        if isinstance(e, ast.Call) and isinstance(e.func, ast.Name) and e.func.id == 'len' and len(e.args) == 1 and isinstance(e.args[0], ast.Name):
+            return e.args[0].id
+        if isinstance(e, ast.Name):
+            defs = [a for a in ast.walk(fn) if isinstance(a, ast.Assign) and len(a.targets) == 1 and isinstance(a.targets[0], ast.Name) and a.targets[0].id == e.id]
+            if len(defs) == 1 and len(_stores(fn, e.id)) == 1:
+                return len_of(defs[0].value) if not isinstance(defs[0].value, ast.Name) else None
+        return None
+
+    def nonneg(e):
+        if isinstance(e, ast.Constant):
+            return type(e.value) is int and e.value >= 0
+        if isinstance(e, ast.Name):
+            return True
+        if isinstance(e, ast.BinOp) and isinstance(e.op, ast.Add):
+            return nonneg(e.left) and nonneg(e.right)
+        return False
+    for blk in list(_blocks(fn)):
+        for i, st in enumerate(blk):
+            if not (isinstance(st, ast.For) and isinstance(st.target, ast.Name) and not st.orelse and isinstance(st.iter, ast.Call)
+                    and isinstance(st.iter.func, ast.Name) and st.iter.func.id == 'range' and not st.iter.keywords and len(st.iter.args) in (1, 2)):
+                continue
+            p = st.target.id
+            S = len_of(st.iter.args[-1])
+            lo = st.iter.args[0] if len(st.iter.args) == 2 else ast.Constant(value=0)
+            if S is None or not nonneg(lo) or len(_stores(fn, p)) != 1 or len(_stores(fn, S)) > 0 and S not in {a.arg for a in fn.args.args}:
+                continue
+            if any(isinstance(x, ast.Name) and x.id in (p, S) for x in ast.walk(lo)):
+                continue
+            # names in LO must not be rebound inside the loop (the slice is taken once; range's bound is computed once, too)
+            k, ch = f'k_{p}', f'ch_{p}'
+            if any(isinstance(x, ast.Name) and x.id in (k, ch) for x in ast.walk(fn)):
+                continue
+            pos = ast.Name(id=k, ctx=ast.Load()) if isinstance(lo, ast.Constant) and lo.value == 0 else \
+                ast.BinOp(left=copy.deepcopy(lo), op=ast.Add(), right=ast.Name(id=k, ctx=ast.Load()))
+
+            class R(ast.NodeTransformer):
+                def visit_Subscript(self, s):
+                    if isinstance(s.value, ast.Name) and s.value.id == S and isinstance(s.slice, ast.Name) and s.slice.id == p and isinstance(s.ctx, ast.Load):
+                        return ast.copy_location(ast.Name(id=ch, ctx=ast.Load()), s)
+                    return self.generic_visit(s)
+
+                def visit_Name(self, x):
+                    if x.id == p and isinstance(x.ctx, ast.Load):
+                        return ast.copy_location(copy.deepcopy(pos), x)
+                    return x
+            st.body = [R().visit(b) for b in st.body]
+            src = ast.Name(id=S, ctx=ast.Load()) if isinstance(lo, ast.Constant) and lo.value == 0 else \
+                ast.Subscript(value=ast.Name(id=S, ctx=ast.Load()), slice=ast.Slice(lower=copy.deepcopy(lo), upper=None, step=None), ctx=ast.Load())
+            st.iter = ast.copy_location(ast.Call(func=ast.Name(id='enumerate', ctx=ast.Load()), args=[src], keywords=[]), st.iter)
+            st.target = ast.copy_location(ast.Tuple(elts=[ast.Name(id=k, ctx=ast.Store()), ast.Name(id=ch, ctx=ast.Store())], ctx=ast.Store()), st.target)
+            # reads of p after the loop (anywhere else in the function: p is bound by this loop only)
+            inside = {id(x) for x in ast.walk(st)}
+
+            class A(ast.NodeTransformer):
+                def visit_Name(self, x):
+                    if x.id == p and isinstance(x.ctx, ast.Load) and id(x) not in inside:
+                        return ast.copy_location(copy.deepcopy(pos), x)
+                    return x
+            for holder in [fn]:
+                holder.body = [A().visit(b) if b is not st else b for b in holder.body]
+            n += 1
+    if n:
+        ast.fix_missing_locations(fn)
+    return n
+
+
+def bound_generator_to_list(tree: ast.Module) -> int:
+    """`X = g(args)` with g a module-level generator function, X bound once and read once - in the statement that follows, as `*X`
+    in a tuple / list display or as the argument of tuple() / list(), before anything else that statement evaluates - is the list of
+    what g yields, made where it is consumed: `X = []; X.extend(g(args))` (extend_by_generator_to_appends then writes the body out).
+    A display `(*X, e1, .., ek)` that starts with the unpacked list becomes `X.append(e1) .. X.append(ek)` and `tuple(X)`."""
+    n = 0
+    gens = set()
+    for g in tree.body:
+        if isinstance(g, ast.FunctionDef) and not g.decorator_list:
+            inner = {id(x) for h in ast.walk(g) if isinstance(h, (ast.FunctionDef, ast.Lambda)) and h is not g for x in ast.walk(h)}
+            if any(isinstance(x, (ast.Yield, ast.YieldFrom)) and id(x) not in inner for x in ast.walk(g)):
+                gens.add(g.name)
+    if not gens:
+        return 0
+    for fn in [x for x in ast.walk(tree) if isinstance(x, ast.FunctionDef) and x.name not in gens]:
+        stores, loads = _counts(fn)
+        for blk in list(_blocks(fn)):
+            i = 0
+            while i + 1 < len(blk):
+                st, nxt = blk[i], blk[i + 1]
+                i += 1
+                if not (isinstance(st, ast.Assign) and len(st.targets) == 1 and isinstance(st.targets[0], ast.Name) and isinstance(st.value, ast.Call)
+                        and isinstance(st.value.func, ast.Name) and st.value.func.id in gens):
+                    continue
+                X = st.targets[0].id
+                if stores.get(X, 0) != 1 or loads.get(X, 0) != 1 or _find_use(nxt, X) != 'ok':
+                    continue
+                parents = {c: p for p in ast.walk(nxt) for c in ast.iter_child_nodes(p)}
+                use = next(x for x in ast.walk(nxt) if isinstance(x, ast.Name) and x.id == X)
+                par = parents.get(use)
+                disp = None
+                if isinstance(par, ast.Starred) and isinstance(parents.get(par), (ast.Tuple, ast.List)) and parents[par].elts[0] is par \
+                        and not any(isinstance(e, ast.Starred) for e in parents[par].elts[1:]):
+                    disp = parents[par]
+                elif isinstance(par, ast.Call) and isinstance(par.func, ast.Name) and par.func.id in ('tuple', 'list') and len(par.args) == 1 and not par.keywords:
+                    pass
+                else:
+                    continue
+                call = st.value
+                new = [ast.copy_location(ast.Assign(targets=[ast.Name(id=X, ctx=ast.Store())], value=ast.List(elts=[], ctx=ast.Load())), st),
+                       ast.copy_location(ast.Expr(value=ast.Call(func=ast.Attribute(value=ast.Name(id=X, ctx=ast.Load()), attr='extend', ctx=ast.Load()),
+                                                                 args=[call], keywords=[])), st)]
+                if disp is not None:
+                    # the elements after the unpacked list are appended to it (nothing else reads X), the display is the whole list
+                    for e in disp.elts[1:]:
+                        new.append(ast.copy_location(ast.Expr(value=ast.Call(func=ast.Attribute(value=ast.Name(id=X, ctx=ast.Load()), attr='append', ctx=ast.Load()),
+                                                                             args=[e], keywords=[])), nxt))
+                    kind = 'tuple' if isinstance(disp, ast.Tuple) else 'list'
+                    repl = ast.copy_location(ast.Call(func=ast.Name(id=kind, ctx=ast.Load()), args=[ast.Name(id=X, ctx=ast.Load())], keywords=[]), disp)
+
+                    class R(ast.NodeTransformer):
+                        def visit_Tuple(self, t):
+                            return repl if t is disp else self.generic_visit(t)
+                        visit_List = visit_Tuple
+                    blk[i] = R().visit(nxt)
+                for x in new:
+                    ast.fix_missing_locations(x)
+                blk[i - 1:i] = new
+                i += len(new) - 1
+                n += 1
+    return n
+
+
+
+def fold_reflective_calls(fn: ast.FunctionDef) -> int:
+    """constant-folds three spellings left behind when a table row is substituted into its dispatch:
+    `getattr(o, 'name')` -> `o.name`;  `[E for v in range(c1, c2)]` (literal bounds, at most 6 turns, no condition) -> the display
+    of E with v = c1 .. c2-1;  `f(a, *[x, y], b)` -> `f(a, x, y, b)`."""
+    import copy
+    n = [0]
+
+    class F(ast.NodeTransformer):
+        def visit_Call(self, c):
+            self.generic_visit(c)
+            if isinstance(c.func, ast.Name) and c.func.id == 'getattr' and len(c.args) == 2 and not c.keywords \
+                    and isinstance(c.args[1], ast.Constant) and isinstance(c.args[1].value, str) and c.args[1].value.isidentifier():
+                n[0] += 1
+                return ast.copy_location(ast.Attribute(value=c.args[0], attr=c.args[1].value, ctx=ast.Load()), c)
+            if any(isinstance(a, ast.Starred) and isinstance(a.value, (ast.List, ast.Tuple)) and not any(isinstance(e, ast.Starred) for e in a.value.elts)
+                   for a in c.args):
+                new = []
+                for a in c.args:
+                    if isinstance(a, ast.Starred) and isinstance(a.value, (ast.List, ast.Tuple)) and not any(isinstance(e, ast.Starred) for e in a.value.elts):
+                        new.extend(a.value.elts)
+                    else:
+                        new.append(a)
+                c.args = new
+                n[0] += 1
+            return c
+
+        def visit_ListComp(self, lc):
+            self.generic_visit(lc)
+            if len(lc.generators) != 1 or lc.generators[0].ifs or lc.generators[0].is_async or not isinstance(lc.generators[0].target, ast.Name):
+                return lc
+            it = lc.generators[0].iter
+            if not (isinstance(it, ast.Call) and isinstance(it.func, ast.Name) and it.func.id == 'range' and not it.keywords and len(it.args) in (1, 2)):
+                return lc
+            args = [_fold_ints(copy.deepcopy(a)) for a in it.args]
+            if not all(isinstance(a, ast.Constant) and type(a.value) is int for a in args):
+                return lc
+            lo, hi = (0, args[0].value) if len(args) == 1 else (args[0].value, args[1].value)
+            if hi - lo > 6:
+                return lc
+            v = lc.generators[0].target.id
+            elts = []
+            for k in range(lo, max(lo, hi)):
+                class S(ast.NodeTransformer):
+                    def visit_Name(self, x):
+                        return ast.copy_location(ast.Constant(value=k), x) if x.id == v and isinstance(x.ctx, ast.Load) else x
+                elts.append(_fold_ints(S().visit(copy.deepcopy(lc.elt))))
+            n[0] += 1
+            return ast.copy_location(ast.List(elts=elts, ctx=ast.Load()), lc)
+    for i, st in enumerate(fn.body):
+        fn.body[i] = F().visit(st)
+    if n[0]:
+        ast.fix_missing_locations(fn)
+    return n[0]
+
+
+def fold_arm_temporaries(fn: ast.FunctionDef) -> int:
+    """a local bound in several arms, each binding read exactly once - by the statement that follows it in the same block, before
+    anything impure (see _find_use) - and nowhere else: every binding is folded into its reader.  (fold_temporaries handles the
+    locals bound once.)"""
+    n = 0
+    stores, loads = _counts(fn)
+    for x in [k for k, c in stores.items() if c > 1 and loads.get(k, 0) == c and k not in {a.arg for a in fn.args.args}]:
+        sites = []
+        for blk in _blocks(fn):
+            for i, st in enumerate(blk):
+                if isinstance(st, ast.Assign) and len(st.targets) == 1 and isinstance(st.targets[0], ast.Name) and st.targets[0].id == x \
+                        and i + 1 < len(blk) and _find_use(blk[i + 1], x) == 'ok' \
+                        and not any(isinstance(y, ast.Name) and y.id == x for y in ast.walk(st.value)):
+                    sites.append((blk, st))
+        if len(sites) != stores[x]:
+            continue
+        for blk, st in sites:
+            i = next(j for j, y in enumerate(blk) if y is st)
+            blk[i + 1] = ast.fix_missing_locations(_Subst(x, st.value).visit(blk[i + 1]))
+            blk.pop(i)
+            n += 1
+    return n
+
+
+def drop_dead_constant_bindings(fn: ast.FunctionDef) -> int:
+    """`n = <constant>` where nothing in the function reads n"""
+    n = 0
+    _st, loads = _counts(fn)
+    for blk in _blocks(fn):
+        for st in list(blk):
+            if isinstance(st, ast.Assign) and len(st.targets) == 1 and isinstance(st.targets[0], ast.Name) and isinstance(st.value, ast.Constant) \
+                    and loads.get(st.targets[0].id, 0) == 0 and len(blk) > 1:
+                blk.remove(st)
+                n += 1
+    return n
+
+
+def specialise_tables(fn: ast.FunctionDef, module: ast.Module | None = None) -> int:
+    """a dispatch through a constant table written out per row (specialise_table_dispatch), and the row's values carried into the
+    code that used them (unpacking, block constants, constant ranges, reflective spellings, single-use temporaries).  Only a
+    function in which a table dispatch was found is touched.  -> number of dispatches specialised"""
+    k = specialise_table_dispatch(fn, module)
+    if not k:
+        return 0
+    for _ in range(4):
+        j = unpack_display_assign(fn) + propagate_block_constants(fn) + unroll_constant_ranges(fn) + dict_stores_to_display(fn) \
+            + fold_reflective_calls(fn)
+        j += fold_temporaries(ast.Module(body=[fn], type_ignores=[])) + fold_arm_temporaries(fn)
+        if not j:
+            break
+    drop_dead_constant_bindings(fn)
+    return k
+
+
+def inline_effectful_predicates(tree: ast.Module) -> int:
+    """`if _h(args): A [else: B]` where `_h` is a private module-level function referenced only there, whose every `return` hands
+    back the literal True or False: the helper's body is written in place with A where it returned True and B where it returned
+    False (the body is first restructured so that each return is the last thing done on its path).  Parameters are read-only in the
+    helper and the arguments plain names; the helper's locals are renamed apart.  A and B are short (they are duplicated)."""
+    import copy
+    count = 0
+    for g in [n for n in list(tree.body) if isinstance(n, ast.FunctionDef) and n.name.startswith('_') and not n.name.startswith('__')]:
+        if g.decorator_list or g.args.vararg or g.args.kwarg or g.args.kwonlyargs or g.args.defaults or g.args.posonlyargs:
+            continue
+        refs = [x for x in ast.walk(tree) if isinstance(x, ast.Name) and x.id == g.name]
+        if len(refs) != 1 or any(isinstance(x, ast.Constant) and x.value == g.name for x in ast.walk(tree)):
+            continue
+        rets = [r for r in ast.walk(g) if isinstance(r, ast.Return)]
+        if not rets or not all(isinstance(r.value, ast.Constant) and isinstance(r.value.value, bool) for r in rets):
+            continue
+        if any(isinstance(x, (ast.FunctionDef, ast.Lambda, ast.Yield, ast.YieldFrom, ast.Global, ast.Nonlocal)) and x is not g for x in ast.walk(g)):
+            continue
+        params = [a.arg for a in g.args.args]
+        if any(isinstance(x, ast.Name) and x.id in params and isinstance(x.ctx, (ast.Store, ast.Del)) for x in ast.walk(g)):
+            continue
+        # the use: the whole test of an `if` inside some function
+        site = None
+        for f in [x for x in ast.walk(tree) if isinstance(x, ast.FunctionDef) and x is not g]:
+            for blk in _blocks(f):
+                for i, st in enumerate(blk):
+                    if isinstance(st, ast.If) and isinstance(st.test, ast.Call) and st.test.func is refs[0]:
+                        site = (f, blk, i, st)
+        if site is None:
+            continue
+        f, blk, i, st = site
+        call = st.test
+        if call.keywords or len(call.args) != len(params) or not all(isinstance(a, ast.Name) for a in call.args):
+            continue
+        if len(st.body) > 3 or len(st.orelse) > 3:
+            continue
+        body0 = [x for x in g.body if not (isinstance(x, ast.Expr) and isinstance(x.value, ast.Constant))]
+        flat = _assign_returns([copy.deepcopy(x) for x in body0], '__verdict')
+        if flat is None:
+            continue
+        stored = {x.id for x in ast.walk(g) if isinstance(x, ast.Name) and isinstance(x.ctx, (ast.Store, ast.Del))}
+        caller_names = {x.id for x in ast.walk(f) if isinstance(x, ast.Name)} | {a.arg for a in f.args.args}
+        ren = {v: f'{v}__{g.name}' for v in stored if v in caller_names}
+        sub = {p: a.id for p, a in zip(params, call.args)}
+        if any(len(_stores(f, a.id)) > 1 for a in call.args):
+            pass                                            # rebinding of an argument elsewhere does not matter: it is read here, now
+
+        class R(ast.NodeTransformer):
+            def visit_Name(self, x):
+                if x.id in sub and isinstance(x.ctx, ast.Load):
+                    x.id = sub[x.id]
+                elif x.id in ren:
+                    x.id = ren[x.id]
+                return x
+        ok = [True]
+
+        def place(stmts):
+            out = []
+            for s_ in stmts:
+                if isinstance(s_, ast.Assign) and len(s_.targets) == 1 and isinstance(s_.targets[0], ast.Name) and s_.targets[0].id == '__verdict':
+                    if s_ is not stmts[-1]:
+                        ok[0] = False
+                    out += [copy.deepcopy(b) for b in (st.body if s_.value.value else st.orelse)]
+                    continue
+                for fld in ('body', 'orelse', 'finalbody'):
+                    sub_ = getattr(s_, fld, None)
+                    if isinstance(sub_, list) and sub_ and isinstance(sub_[0], ast.stmt):
+                        new = place(sub_)
+                        setattr(s_, fld, new or ([ast.copy_location(ast.Pass(), s_)] if fld == 'body' else []))
+                out.append(s_)
+            return out
+        new = place([R().visit(x) for x in flat])
+        if not ok[0] or any(isinstance(x, ast.Name) and x.id == '__verdict' for y in new for x in ast.walk(y)):
+            continue
+        for x in new:
+            ast.fix_missing_locations(x)
+        blk[i:i + 1] = new
+        tree.body = [x for x in tree.body if x is not g]
+        count += 1
+    return count
+
+
+def get_or_insert_to_membership(tree: ast.Module) -> int:
+    """`v = D.get(k)` followed by `if v is None: v = E; D[k] = v` (the two in either order, no else) -> `if k not in D: D[k] = E`
+    and `v = D[k]`.  The two agree unless D maps k to None: E and every other value stored into D in the module are calls of len(),
+    integer literals or arithmetic on these.  D is a name or an attribute chain, k a name."""
+    count = 0
+
+    def intish(e):
+        if isinstance(e, ast.Constant):
+            return type(e.value) is int
+        if isinstance(e, ast.Call):
+            return isinstance(e.func, ast.Name) and e.func.id == 'len' and len(e.args) == 1
+        if isinstance(e, ast.BinOp) and isinstance(e.op, (ast.Add, ast.Sub, ast.Mult)):
+            return intish(e.left) and intish(e.right)
+        return False
+    for blk in list(_blocks(tree)):
+        i = 0
+        while i + 1 < len(blk):
+            a, b = blk[i], blk[i + 1]
+            i += 1
+            if not (isinstance(a, ast.Assign) and len(a.targets) == 1 and isinstance(a.targets[0], ast.Name) and isinstance(a.value, ast.Call)
+                    and isinstance(a.value.func, ast.Attribute) and a.value.func.attr == 'get' and len(a.value.args) == 1 and not a.value.keywords
+                    and isinstance(a.value.args[0], ast.Name) and isinstance(a.value.func.value, (ast.Name, ast.Attribute))):
+                continue
+            v, k, D = a.targets[0].id, a.value.args[0].id, a.value.func.value
+            Dt = ast.unparse(D)
+            if not (isinstance(b, ast.If) and not b.orelse and isinstance(b.test, ast.Compare) and len(b.test.ops) == 1 and isinstance(b.test.ops[0], ast.Is)
+                    and isinstance(b.test.left, ast.Name) and b.test.left.id == v and isinstance(b.test.comparators[0], ast.Constant)
+                    and b.test.comparators[0].value is None and len(b.body) == 2):
+                continue
+            bind = [s for s in b.body if isinstance(s, ast.Assign) and len(s.targets) == 1 and isinstance(s.targets[0], ast.Name) and s.targets[0].id == v]
+            store = [s for s in b.body if isinstance(s, ast.Assign) and len(s.targets) == 1 and isinstance(s.targets[0], ast.Subscript)
+                     and ast.unparse(s.targets[0].value) == Dt and isinstance(s.targets[0].slice, ast.Name) and s.targets[0].slice.id == k]
+            if len(bind) != 1 or len(store) != 1 or v == k:
+                continue
+            E = bind[0].value
+            if b.body[0] is store[0]:
+                # D[k] = E' first, then v = ..: accept `D[k] = E; v = D[k]`-like only in the simple order below
+                continue
+            if not (isinstance(store[0].value, ast.Name) and store[0].value.id == v) or not intish(E):
+                continue
+            if any(isinstance(x, ast.Name) and x.id in (v,) for x in ast.walk(E)):
+                continue
+            others = [s for s in ast.walk(tree) if isinstance(s, ast.Assign) and s is not store[0] and any(
+                isinstance(t, ast.Subscript) and ast.unparse(t.value) == Dt for t in s.targets)]
+            if not all(intish(s.value) for s in others):
+                continue
+            import copy
+            test = ast.Compare(left=ast.Name(id=k, ctx=ast.Load()), ops=[ast.NotIn()], comparators=[copy.deepcopy(D)])
+            st1 = ast.If(test=test, body=[ast.Assign(targets=[ast.Subscript(value=copy.deepcopy(D), slice=ast.Name(id=k, ctx=ast.Load()), ctx=ast.Store())],
+                                                    value=E)], orelse=[])
+            st2 = ast.Assign(targets=[ast.Name(id=v, ctx=ast.Store())],
+                             value=ast.Subscript(value=copy.deepcopy(D), slice=ast.Name(id=k, ctx=ast.Load()), ctx=ast.Load()))
+            blk[i - 1:i + 1] = [ast.fix_missing_locations(ast.copy_location(st1, b)), ast.fix_missing_locations(ast.copy_location(st2, b))]
+            count += 1
+    return count
+
+
+def fold_list_building(tree: ast.Module) -> int:
+    """`x = [a, b]` directly followed by `x.append(e)` / `x.extend(E)` statements and then by the ONE statement that reads x (once,
+    before anything impure) is the display `[a, b, e, *E]` bound to x - which fold_temporaries then carries into its reader.  x is
+    bound once and every other occurrence of x is one of those mutator statements."""
+    n = 0
+    for fn in [f for f in ast.walk(tree) if isinstance(f, ast.FunctionDef)]:
+        stores, loads = _counts(fn)
+        for blk in list(_blocks(fn)):
+            i = 0
+            while i < len(blk):
+                st = blk[i]
+                i += 1
+                t = st.targets[0] if isinstance(st, ast.Assign) and len(st.targets) == 1 else (st.target if isinstance(st, ast.AnnAssign) else None)
+                v = getattr(st, 'value', None)
+                if not (isinstance(t, ast.Name) and isinstance(v, ast.List) and stores.get(t.id, 0) == 1):
+                    continue
+                x = t.id
+                j = i
+                elts = list(v.elts)
+                while j < len(blk):
+                    s = blk[j]
+                    if isinstance(s, ast.Expr) and isinstance(s.value, ast.Call) and isinstance(s.value.func, ast.Attribute) \
+                            and isinstance(s.value.func.value, ast.Name) and s.value.func.value.id == x and s.value.func.attr in ('append', 'extend') \
+                            and len(s.value.args) == 1 and not s.value.keywords \
+                            and not any(isinstance(y, ast.Name) and y.id == x for y in ast.walk(s.value.args[0])):
+                        a = s.value.args[0]
+                        elts.append(a if s.value.func.attr == 'append' else ast.Starred(value=a, ctx=ast.Load()))
+                        j += 1
+                    else:
+                        break
+                k = j - i
+                if k == 0 or j >= len(blk) or loads.get(x, 0) != k + 1 or _find_use(blk[j], x) != 'ok':
+                    continue
+                new = ast.copy_location(ast.Assign(targets=[ast.Name(id=x, ctx=ast.Store())], value=ast.List(elts=elts, ctx=ast.Load())), blk[j - 1])
+                blk[i - 1:j] = [ast.fix_missing_locations(new)]
+                n += 1
+    return n
